@@ -19,6 +19,8 @@ def run(tier, seed):
     gens = [rp.GEN_OFF, None]
     vp.exhaustive_part(v, "U_C02", ["Inv_C02_Reparse", "Inv_C02_Layout"], gens, OWNED)
     vp.exhaustive_part(v, "U_C02_Pos", ["Inv_C02_Reparse", "Inv_C02_Layout", "Inv_Pack2", "Inv_C02_PosReparse"], gens, OWNED)
+    # long values named explicitly (bodies of 64 KiB in front of a two-byte marker, 520 multi-byte elements, ...)
+    vp.exhaustive_part(v, "U_C02_Long", ["Inv_C02_Reparse", "Inv_C02_Layout"], gens, OWNED)
     v.cov["exhaustive"] = True
     v.cov["rule"] = ("TLC enumerates U_C02 x all complete value assignments from the per-kind domains (Values.tla); each is "
                      "constructed (constructor and attribute assignment), packed and re-parsed on real classes under generic and "
